@@ -33,6 +33,8 @@ struct Fn
 			return std::sin(w * x + s);
 		if(kind == "abs")	// |x-s|^k
 			return std::pow(std::fabs(x - s), k);
+		if(kind == "noise")	  // rough at every scale: the Simpson estimates of a panel never agree
+			return std::fmod(std::sin(x * w + s) * 43758.5453, 1.0);
 		if(kind == "step")
 			return x < s ? w : k;
 		if(kind == "runge")	  // 1/(1+w*(x-s)^2)
@@ -124,8 +126,18 @@ static std::string do_int(Args& a, bool nested = false)
 		double r		   = Integrate(cb, lo, hi, eps, depth);
 		std::cout.rdbuf(ob);
 		std::cerr.rdbuf(eb);
-		int warn = cap_out.str().find("did not converge") != std::string::npos;
-		int swapw = cap_err.str().find("Sign will get swapped") != std::string::npos;
+		// the non-convergence warning is recognised by its existence, not by its wording: every warning of Integrate on
+		// stdout starts with "Warning"; a nan / inf result produces exactly one further warning of its own
+		long nwarn = 0;
+		{
+			const std::string txt = cap_out.str();
+			for(size_t p = txt.find("Warning"); p != std::string::npos; p = txt.find("Warning", p + 1))
+				nwarn++;
+		}
+		if(std::isnan(r) || std::isinf(r))
+			nwarn--;
+		int warn  = nwarn > 0;
+		int swapw = !cap_err.str().empty();
 		o << r << warn << n << (double) sum << mn << mx << swapw;
 		if(tr)
 			o << xs;
